@@ -98,7 +98,8 @@ impl TraceSlider {
     }
 
     pub(crate) fn set_subtrace_len(&mut self, subtrace_len: TraceLen) -> KeeperResult<()> {
-        let trace_remainder: TraceLen = (TracePos::from(self.trace_len()) - self.position).into();
+        // the position comes from data and, with an empty subtrace, could be beyond the trace end
+        let trace_remainder: TraceLen = self.trace_len().saturating_sub(self.position.into());
         if trace_remainder < subtrace_len {
             return Err(SetSubtraceLenFailed {
                 requested_subtrace_len: subtrace_len,
